@@ -182,12 +182,10 @@ end Irismod.Proofs.Service
 namespace Irismod.Proofs.Service
 open Irismod Irismod.Sdk Irismod.Service Irismod.Spec.C07
 
-/-- **charge of a batch**: without promotions, and when the consumer can pay the whole batch, the
-new-batch handler debits the consumer by exactly the fees recorded on the requests it creates -/
+/-- **charge of a batch**: without promotions the new-batch handler debits the consumer by exactly the fees
+recorded on the requests it creates — also when the consumer cannot pay (nothing is debited, nothing created) -/
 theorem charge_eq_fees {s : State} (hw : WF s) (hd : DI s) (hn : NoPromo s) (id : CtxId)
-    (hm : AMap.get? s.newH id = some s.height) {c : Ctx} (hg : AMap.get? s.ctxs id = some c)
-    (hpay : ∀ provs total, filterProviders s c c.providers [] [] = some (provs, total) →
-      (debitCoins s.bank c.consumer (sortCoins total)).2 = true) (d : Denom) :
+    (hm : AMap.get? s.newH id = some s.height) {c : Ctx} (hg : AMap.get? s.ctxs id = some c) (d : Denom) :
     Bank.balOf (newBatch s id).bank c.consumer d + activeFee (newBatch s id) d =
       Bank.balOf s.bank c.consumer d + activeFee s d := by
   have hnc : AMap.contains s.newH id = true := (contains_iff _ _).mpr ⟨_, hm⟩
@@ -196,14 +194,24 @@ theorem charge_eq_fees {s : State} (hw : WF s) (hd : DI s) (hn : NoPromo s) (id 
   have hcons : Good c.consumer := hd.1.consumers _ _ hg
   unfold newBatch
   rw [hgc]
+  have hpaused : ∀ cause, Bank.balOf (delNew (onPaused s id c cause) id s.height).bank c.consumer d +
+      activeFee (delNew (onPaused s id c cause) id s.height) d = Bank.balOf s.bank c.consumer d + activeFee s d := by
+    intro cause
+    obtain ⟨o1, o2, o3, _, _⟩ := onPaused_ledger s id c cause
+    have hA : activeFee (delNew (onPaused s id c cause) id s.height) d = activeFee s d :=
+      activeFee_congr (by simp only [delNew]; rw [o2]) (fun _ _ => by simp only [delNew]; rw [o3]) d
+    rw [hA]
+    simp only [delNew]
+    rw [o1]
   split
   · split
-    · rfl
+    · exact hpaused _
     · rename_i provs total hfp
-      have hp := hpay provs total hfp
       split
       · unfold chargeAndStart
-        rw [if_pos hp]
+        split
+        case isFalse => exact hpaused _
+        rename_i hp
         obtain ⟨added, ha1, ha2⟩ := filterProviders_total s c c.providers [] [] provs total hfp
         simp only [List.nil_append] at ha1
         subst ha1
